@@ -1,5 +1,6 @@
 """Properties about content and text decoding: C13 C14 C15 C16."""
 import gzip
+import hashlib
 import re
 import struct
 import zlib
@@ -28,6 +29,7 @@ def raw_deflate(data, level=6, strategy=zlib.Z_DEFAULT_STRATEGY, flush_points=()
 def stored_deflate(data, piece=65535, pad_bits=0):
     """RFC 1951 stored blocks only (hand-rolled; block structure no library emits: arbitrary piece sizes, empty blocks)"""
     out = b""
+    piece = max(1, min(piece, 65535))       # a stored block holds at most 65535 bytes
     pieces = [data[i:i + piece] for i in range(0, len(data), piece)] or [b""]
     for i, p in enumerate(pieces):
         final = 1 if i == len(pieces) - 1 else 0
@@ -568,6 +570,25 @@ class C14:
                                                      "expected_out": eo.hex() if (eo is not None and len(eo) < 4000) else None, "corrupt": info["corrupt"]})
             g.add("decode", "DECODE %d %s %s" % (tree, hdrs_field(hs), hx(body)))
             groups.append(g)
+        # bodies that expand by more than 1000 : 1 (runs of one byte): "returns the bytes unchanged apart from the undone
+        # codings" also when a cap derived from the coded length would cut them (ninth round: take(1000 x coded length))
+        for k, (fill, size) in enumerate([(b"\x00", 2 << 20), (b"a", 1_100_000), (b"\xff", 3 << 20), (b"ab", 1 << 20)]):
+            data = (fill * (size // len(fill) + 1))[:size]
+            for kind in ("gzip", "zlib", "raw"):
+                if kind == "gzip":
+                    enc = gzip.compress(data, 9)
+                elif kind == "zlib":
+                    enc = zlib.compress(data, 9)
+                else:
+                    co = zlib.compressobj(9, zlib.DEFLATED, -15)
+                    enc = co.compress(data) + co.flush()
+                if kind == "raw" and raw_ambiguous(enc):
+                    continue
+                hs = [(b"Content-Encoding", TOKEN_OF[kind]), (b"Content-Length", str(len(enc)).encode())]
+                g = Group("hx%d%s" % (k, kind), "decode-headers", {"headers": [[a.hex(), b.hex()] for a, b in hs], "body": enc.hex(), "expected_out": None,
+                                                                  "expected_digest": hashlib.sha256(data).hexdigest(), "expected_len": len(data), "corrupt": False})
+                g.add("decode", "DECODE %d %s %s" % (tree, hdrs_field(hs), hx(enc)))
+                groups.append(g)
         # bare deflate streams that pass the zlib header test, alone and under / over another coding: whatever
         # decode_body answers, it is the answer of the model (refusal with the headers untouched, after repair F6) --
         # in particular no second attempt with another decoder that returns bytes of both attempts
@@ -595,6 +616,9 @@ class C14:
         fails, result = decode_postconditions(group, 0, hs, unhex(meta["body"]), out)
         if result is not None and meta["expected_out"] is not None and result != unhex(meta["expected_out"]):
             fails.append(Failure(group, "bytes", "the returned bytes are not the body with exactly the trailing known codings undone", [0]))
+        if meta.get("expected_digest"):
+            if result is None or hashlib.sha256(result).hexdigest() != meta["expected_digest"]:
+                fails.append(Failure(group, "bytes", "the returned bytes (%s) are not the %d bytes that were coded" % ("none" if result is None else "%d bytes" % len(result), meta["expected_len"]), [0]))
         if meta["corrupt"] and out.startswith("OK"):
             fails.append(Failure(group, "corrupt-inner", "an inner layer is truncated yet decode_body succeeded", [0]))
         return fails
